@@ -27,7 +27,7 @@ MODEL_FILES = ["Model", "Run"]
 QUOTA = {"quick": {"Field": 3, "Data": 4, "Domain": 2, "Constructs": 2, "*": 1},
          "thorough": {"Field": 21, "Data": 60, "Domain": 12, "Constructs": 12, "*": 16}}
 # labels that are always included (minimised past failures / structurally special)
-ALWAYS = ["g0", "f6.auxiliarycoordinate0", "data.masked", "array.numpy.masked", "f3c.data", "f1.coordinatereference1",
+ALWAYS = ["g0", "m1", "f6.auxiliarycoordinate0", "data.masked", "array.numpy.masked", "f3c.data", "f1.coordinatereference1",
           "f1.dimensioncoordinate0", "cellmethod.new", "file-netCDF4-0.data"]
 # file-backed fields re-read every variable for each fingerprint: swept in the thorough tier only
 SLOW = ("file-netCDF4-0", "file-netCDF4-1", "file-h5netcdf-0", "file-h5netcdf-1")
